@@ -53,6 +53,13 @@ def gen_types(r, n, depth_choices=(1, 2, 2, 3), refs=True):
 
 
 def impl_source(cls):
+    # the other generator entry points, called with their DEFAULT arguments as a user or a tool would (declarations for cffi, kernel
+    # descriptions), come first: they are pure - the accessor text generated afterwards is what it is without them
+    for other in ("_gen_c_decl", "_gen_kernels"):
+        try:
+            getattr(cls, other)()
+        except Exception:
+            pass
     src = cls._gen_c_api()
     return src.source if hasattr(src, "source") else src
 
